@@ -30,10 +30,10 @@ type enc struct {
 	bad  string // non-empty: the value cannot be written in the protocol (negative int, ...)
 }
 
-func (e *enc) s(v string)  { e.toks = append(e.toks, corr.Hex([]byte(v))) }
-func (e *enc) b(v []byte)  { e.toks = append(e.toks, corr.Hex(v)) }
-func (e *enc) w(v string)  { e.toks = append(e.toks, v) }
-func (e *enc) bo(v bool)   { e.toks = append(e.toks, corr.B(v)) }
+func (e *enc) s(v string) { e.toks = append(e.toks, corr.Hex([]byte(v))) }
+func (e *enc) b(v []byte) { e.toks = append(e.toks, corr.Hex(v)) }
+func (e *enc) w(v string) { e.toks = append(e.toks, v) }
+func (e *enc) bo(v bool)  { e.toks = append(e.toks, corr.B(v)) }
 func (e *enc) n(v int) {
 	if v < 0 {
 		e.bad = "negative"
@@ -382,9 +382,18 @@ func (rn *runner) opsDesc(ds *DescSpec, d *description.Session, mr *marshalResul
 		rn.c.Dist("model:marshal-unrepresentable:" + bad)
 		return
 	}
-	rn.c.Add(corr.Case{Name: name + "/marshal", Nontrivial: true,
-		Ops:  []string{"sdp marshal " + corr.B(d.Multicast) + " " + line},
-		Impl: []string{"text " + corr.Hex(mr.text)}})
+	ops := []string{"sdp marshal " + corr.B(d.Multicast) + " " + line}
+	impl := []string{"text " + corr.Hex(mr.text)}
+	if ds.Valid {
+		// the generator's valid descriptions must lie inside the hypothesis of the round-trip theorem
+		op := "sdp valid " + line
+		if tb := buildTable(mr.text); len(tb) > 0 {
+			op += " " + strings.Join(tb, " ")
+		}
+		ops = append(ops, op)
+		impl = append(impl, "valid 1")
+	}
+	rn.c.Add(corr.Case{Name: name + "/marshal", Nontrivial: true, Ops: ops, Impl: impl})
 }
 
 // opsText: the model must predict what the parser does with a text.
